@@ -319,6 +319,10 @@ def run_acq(case):
     nv = case['noise']
     if nv == 'dict':
         nv = {nm: 0.1 * (i + 1) * (bnds[i][1] - bnds[i][0]) ** 2 for i, nm in enumerate(names)}
+    elif nv == 'dict0first':      # no noise on the first parameter, noise on the later ones
+        nv = {nm: (0 if i == 0 else 0.1 * (bnds[i][1] - bnds[i][0]) ** 2) for i, nm in enumerate(names)}
+    elif nv == 'dict0last':       # noise on the first parameter only
+        nv = {nm: (0.1 * (bnds[i][1] - bnds[i][0]) ** 2 if i == 0 else 0) for i, nm in enumerate(names)}
     elif isinstance(nv, (int, float)) and nv not in (0,):
         nv = nv * (bnds[0][1] - bnds[0][0]) ** 2
     cls = case['acq']
@@ -426,7 +430,9 @@ def run(ctx):
         for dim in (1, 2):
             for bname in ('unit', 'shifted', 'narrow'):
                 for pname in ('uniform', 'normal'):
-                    for noise in (0, 0.1, 'dict', 100.0):
+                    for noise in (0, 0.1, 'dict', 100.0, 'dict0first', 'dict0last'):
+                        if noise in ('dict0first', 'dict0last') and (dim == 1 or heavy):
+                            continue
                         for seed in ((0,) if (q or heavy) else (0, 1, 2, 3)):
                             if heavy and q and (dim == 2 or noise in (0.1, 100.0) or bname == 'narrow'):
                                 continue
